@@ -285,6 +285,8 @@ class C13(object):
         P = [[float(Fraction(v)) for v in row] for row in case['P']]
         r.nontrivial = len(P) >= 2 and len(P[0]) >= 2 and len(set(map(tuple, P))) >= 2
         cc, pmf = self.call_capacity(P, case.get('call'), r)
+        if r.bad():
+            return
         self.certify_capacity(drv, P, float(cc), pmf, r)
         if not r.bad() and (case.get('call') or {}).get('marginal') is None:
             # (the optional marginal is documented as the carrier of the returned law only; the model of the iteration
@@ -318,11 +320,25 @@ class C13(object):
         letters = [str(i) for i in range(n)]
         w = [float(Fraction(v)) for v in mg]
         md = dit.Distribution(letters, w, trim=False)
+        # the marginal may be held in any base (derived from the case, so that a case stays a plain record): the
+        # returned input distribution must then be a valid distribution in that base
+        mbase = [None, None, None, 2, 'e', 10, 0.5][int(sum(Fraction(v).numerator for v in mg) + n + m) % 7]
+        if mbase is not None and all(v > 0 for v in w):
+            md.set_base(mbase)
+            r.features.append('marginal-base=%s' % mbase)
         cc, mo = channel_capacity(cdists, md, **kw)
-        got = dict(zip(mo.outcomes, [float(v) for v in mo.pmf]))
-        if mo.get_base() != 'linear' or set(got) - set(letters):
-            raise ValueError('the returned marginal is not a linear distribution over the input letters: %r, base %r'
-                             % (list(got), mo.get_base()))
+        if mo.get_base() != md.get_base() or set(mo.outcomes) - set(letters):
+            r.oracle_fail = ('channel_capacity returned an input distribution over %r in base %r for a marginal over %r in base %r'
+                             % (list(mo.outcomes), mo.get_base(), letters, md.get_base()))
+            return cc, np.full(n, np.nan)
+        try:
+            mo.validate()
+        except Exception as e:  # noqa
+            r.oracle_fail = ('the input distribution returned by channel_capacity (base %r, stored values %s) is not a valid '
+                             'distribution: %s' % (mo.get_base(), [float(v) for v in mo.pmf], type(e).__name__))
+            return cc, np.full(n, np.nan)
+        ml = mo.copy(base='linear')
+        got = dict(zip(ml.outcomes, [float(v) for v in ml.pmf]))
         return cc, np.array([got.get(l, 0.0) for l in letters])
 
     def compare_capacity_loop(self, drv, P, cc, pmf, r):
@@ -378,6 +394,8 @@ class C13(object):
         r.features.append('family=%s' % fam)
         r.nontrivial = True
         cc, pmf = self.call_capacity(P, case.get('call'), r)
+        if r.bad():
+            return
         if abs(float(cc) - want) > 1e-6:
             r.oracle_fail = 'capacity of the %s channel (e=%s, n=%d) is %r, closed form %r' % (fam, case['e'], n, float(cc), want)
             return
